@@ -27,7 +27,8 @@ THEOREMS = {
     "C07_model_is_source_concat": "concat translated (single element returned as is, empty list refused, size test + combine per further matrix) = model's dm_concat",
     "C07_model_is_source_to_dense": "to_dense translated (refusal of an incomplete matrix, zero matrix, both mirrored cells written per entry) = model's to_dense, for objects whose stored index pairs are inside the matrix",
     "C07_model_is_source_calculate_pairwise": "calculate_pairwise_distance_matrix_on_predictions translated, for ANY get_theta / predict_viability / metric = model's compute_chunk with d i j = metric(pred i, pred j) for 0 <= chunk_index < n_chunks; outside it fails as the chunk function does",
-    "C07_model_is_source_pipeline": "the translated calculate_pairwise per listed chunk, concat, to_dense composed = the model's pipeline (the subject of C07_assemble / C07_incomplete_refused)",
+    "C07_model_is_source_save_load": "save translated (h5py calls as primitives over the record of the file's four datasets) writes the used prefixes of the three arrays and [size]; load translated, applied to what save wrote, gives a well-formed object representing the same matrix = the model's dm_load (dm_save m)",
+    "C07_model_is_source_pipeline": "the translated calculate_pairwise, save, load per listed chunk, then concat, to_dense composed = the model's pipeline (the subject of C07_assemble / C07_incomplete_refused)",
     "C07_model_is_source_mse_distance": "MSEDistance.distance translated (sigmoid branch, a - b, ** 2, mean) = Mse.mse_distance on two vectors of one length",
     "C07_chunks_partition": "concat of all chunks in index order = enumeration of pairs i>j (all n, all n_chunks>=1)",
     "C07_chunks_cover_once": "every pair j<i<n occurs exactly once over all chunks, nothing else occurs",
@@ -51,7 +52,7 @@ ASSUMPTIONS = [
 EXPLANATION = ("Model: Model/Chunks.v, Model/DistMat.v, Model/Mse.v. Modelled, not verified: h5py (save / load are the identity in the model), "
                "tqdm; the CLI wrapper calculate_distance_matrix.main is exercised in-process on real Screen/ThetaHolder files by implementation-only predicate cases (kind cli). "
                "Source-translation links (C07_model_is_source_*): consume, get_number_of_lower_triangular_indices, lower_triangular_indices, "
-               "get_lower_triangular_indices_chunk, ChunkedDistanceMatrix.__init__ / _expand_storage / add_value / is_complete / to_dense / combine / concat, "
+               "get_lower_triangular_indices_chunk, ChunkedDistanceMatrix.__init__ / _expand_storage / add_value / is_complete / to_dense / save / load / combine / concat, "
                "calculate_pairwise_distance_matrix_on_predictions and MSEDistance.distance are re-translated WHOLE from the source on every run "
                "(harness/py2gal.py, configurations C07_* in harness/src_functions.py, output Generated/SrcChunks.v, SrcDistMat.v, SrcMse.v) and proved equal to the model "
                "(the matrix methods through the explicit representation map DistMat.dm_of_storage: entry k = (row_indices[k], col_indices[k], values[k]) for k < current_index, "
@@ -64,7 +65,9 @@ EXPLANATION = ("Model: Model/Chunks.v, Model/DistMat.v, Model/Mse.v. Modelled, n
                "self.sigmoid; expit(x) = the oracle elementwise; x - y (elementwise, one item broadcast, else ValueError), x ** 2, np.mean(x) (NaN of an empty array = the model's error 6). "
                "Hypotheses of the links, all facts about every object the pipeline builds: storage_ok (constructed objects), has_room / the size >= 2 side conditions (an object built for an EMPTY chunk has no slot and chunk_size 0: add_value on it would raise IndexError - "
                "the pipeline never adds to it), entries_in_range (stored indices come from the enumeration, so they are not negative), equal prediction lengths for the metric. "
-               "Not linked: save / load (h5py; the model's identity; exercised by every pipeline case).")
+               "save / load are linked with the h5py calls as primitives over the record of the file's four datasets: h5py.File(name, 'w') = a file without datasets, create_dataset(name, data=a, compression='gzip') stores a under name, "
+               "h5py.File(name, 'r') = the file's content, f[name][:] the whole array (KeyError when absent), f['size'][0] its first item, np.array([x]) = [x], cls(size, chunk_size=c) = the translated __init__; "
+               "load is linked on files written by save (the pipeline's only use); that h5py really round-trips int64 / float64 arrays is exercised by every pipeline case.")
 
 
 def _tmpdir():
@@ -190,6 +193,9 @@ def _gen_script(rng):
             regs.append(regs[ks[0]] if ks else 0)
         elif r < 0.9:
             cmds.append([4, rng.randrange(len(regs))])
+        elif r < 0.93:
+            cmds.append([7, rng.randrange(len(regs))])
+            regs.append(regs[cmds[-1][1]])
         elif r < 0.97:
             cmds.append([5, rng.randrange(len(regs))])
         else:
@@ -258,6 +264,10 @@ def _run_script(cmds):
             wire.append([3, ks])
             # concat of a single matrix returns that object itself; the registers hold values, so copy it
             res = attempt(lambda: copy.deepcopy(ChunkedDistanceMatrix.concat([regs[k] for k in ks])))
+        elif op == 7:
+            k = fix(cmd[1])
+            wire.append([7, k])
+            res = attempt(lambda: _save_load(regs[k]))
         elif op == 4:
             k = fix(cmd[1])
             wire.append([4, k])
@@ -269,13 +279,25 @@ def _run_script(cmds):
         else:
             wire.append(cmd)
             res = attempt(lambda: [[int(i), int(j)] for i, j in get_lower_triangular_indices_chunk(cmd[1], cmd[2], cmd[3])])
-        if op in (0, 2, 3) and res[0] == 0:
+        if op in (0, 2, 3, 7) and res[0] == 0:
             regs.append(res[1])
             res = [0, []]
         outs.append(res)
     dump = [[int(m.size), int(m.chunk_size), int(m.current_index), [int(x) for x in m.row_indices], [int(x) for x in m.col_indices],
              [_as_int(x) for x in m.values]] for m in regs]
     return wire, [outs, dump]
+
+
+def _save_load(m):
+    from batchie.distance_calculation import ChunkedDistanceMatrix
+
+    d = _tmpdir()
+    try:
+        fn = os.path.join(d, "m.h5")
+        m.save(fn)
+        return ChunkedDistanceMatrix.load(fn)
+    finally:
+        shutil.rmtree(d, ignore_errors=True)
 
 
 def _as_int(x):
